@@ -60,6 +60,8 @@ type stream struct {
 	rebalanceTimer               *time.Timer
 	vbIDRange                    *models.VbIDRange
 	dirtyOffsets                 *wrapper.ConcurrentSwissMap[uint16, bool]
+	dirtySeqNos                  map[uint16]uint64
+	dirtySeqNoLock               sync.Mutex
 	stopCh                       chan struct{}
 	consumer                     models.Consumer
 	bucketInfo                   *couchbase.BucketInfo
@@ -95,6 +97,8 @@ func (s *stream) setOffset(vbID uint16, offset *models.Offset, dirty bool) {
 		if !dirty {
 			return
 		}
+
+		s.markDirtySeqNo(vbID, offset.SeqNo)
 
 		s.dirtyOffsets.StoreIf(vbID, func(p bool, f bool) (v bool, s bool) {
 			if !f || (f && !p) {
@@ -260,6 +264,7 @@ func (s *stream) Open() {
 
 	s.checkpoint = NewCheckpoint(s, vbIDs, s.client, s.metadata, s.config, latestSeqNoInitializer)
 	s.offsets, s.dirtyOffsets, s.anyDirtyOffset = s.checkpoint.Load()
+	s.resetDirtySeqNos()
 
 	s.observers = wrapper.CreateConcurrentSwissMap[uint16, couchbase.Observer](1024)
 	s.offsets.Range(func(vbID uint16, offset *models.Offset) bool {
@@ -463,6 +468,7 @@ func (s *stream) Close(closeWithCancel bool) {
 
 	s.offsets = wrapper.CreateConcurrentSwissMap[uint16, *models.Offset](1024)
 	s.dirtyOffsets = wrapper.CreateConcurrentSwissMap[uint16, bool](1024)
+	s.resetDirtySeqNos()
 
 	logger.Log.Info("stream stopped")
 	s.eventHandler.AfterStreamStop()
@@ -489,17 +495,44 @@ func (s *stream) GetCheckpointMetric() *CheckpointMetric {
 	return s.checkpoint.GetMetric()
 }
 
-// UnmarkDirtyOffsets clears the dirty mark of every vBucket whose saved offset is still
-// its current one. A vBucket acknowledged while the save was in flight keeps its mark,
-// and the save flag stays raised as long as any mark is left.
+// markDirtySeqNo remembers the seqNo a vBucket was last marked dirty at.
+func (s *stream) markDirtySeqNo(vbID uint16, seqNo uint64) {
+	s.dirtySeqNoLock.Lock()
+	defer s.dirtySeqNoLock.Unlock()
+
+	if s.dirtySeqNos == nil {
+		s.dirtySeqNos = map[uint16]uint64{}
+	}
+
+	s.dirtySeqNos[vbID] = seqNo
+}
+
+func (s *stream) lastDirtySeqNo(vbID uint16) uint64 {
+	s.dirtySeqNoLock.Lock()
+	defer s.dirtySeqNoLock.Unlock()
+
+	return s.dirtySeqNos[vbID]
+}
+
+func (s *stream) resetDirtySeqNos() {
+	s.dirtySeqNoLock.Lock()
+	defer s.dirtySeqNoLock.Unlock()
+
+	s.dirtySeqNos = nil
+}
+
+// UnmarkDirtyOffsets clears the dirty mark of every vBucket whose saved offset covers the
+// position it was last marked dirty at. A vBucket acknowledged while the save was in flight
+// keeps its mark, and the save flag stays raised as long as any mark is left. A position
+// moved only by an event that does not mark it (a reserved key) does not keep the mark.
 func (s *stream) UnmarkDirtyOffsets(saved map[uint16]*models.Offset) {
 	s.anyDirtyOffset = false
 
-	offsets, dirtyOffsets := s.offsets, s.dirtyOffsets
+	dirtyOffsets := s.dirtyOffsets
 
 	for vbID, offset := range saved {
 		dirtyOffsets.StoreIf(vbID, func(dirty bool, found bool) (bool, bool) {
-			if current, ok := offsets.Load(vbID); found && dirty && ok && current == offset {
+			if found && dirty && s.lastDirtySeqNo(vbID) <= offset.SeqNo {
 				return false, true
 			}
 
